@@ -17,17 +17,21 @@ type c17Adapter struct {
 	h       *BaseMappingHandler
 	maxSeen int32
 	entered int
+	inside  int32
+	base    int32 // connections the mapping already had
 }
 
 func (a *c17Adapter) PrepareConnection(conn io.ReadWriteCloser) error {
+	// connections admitted and inside at the same time, on top of those the mapping already had
+	// (not the handler's own counter: that one also counts, for a moment, an arrival that is about
+	// to be refused by the re-check after counting)
 	a.entered++
-	if n := a.h.activeConnCount.Load(); n > a.maxSeen {
+	a.inside++
+	if n := a.base + a.inside; n > a.maxSeen {
 		a.maxSeen = n
 	}
 	verif_Yield() // the connection stays active while other admissions proceed
-	if n := a.h.activeConnCount.Load(); n > a.maxSeen {
-		a.maxSeen = n
-	}
+	a.inside--
 	return errors.New("c17: stop after admission")
 }
 
@@ -68,6 +72,7 @@ func Harness_C17_mapping_limit() {
 	// one slot free, or none (then every arrival must be refused)
 	occupied := limit - 1 + verif_Choose(2)
 	h.activeConnCount.Store(int32(occupied))
+	ad.base = int32(occupied)
 	l1, l2 := &c17Local{}, &c17Local{}
 	verif_Spawn(func() { h.handleConnection(l1) })
 	verif_Spawn(func() { h.handleConnection(l2) })
